@@ -1,12 +1,279 @@
-use crate::util::Report;
-use crate::Ctx;
-use serde_json::Value;
+//! C01 — decoding never returns anything but the original object.
 
-pub fn run(_ctx: &Ctx, _rep: &mut Report) {
-    eprintln!("not implemented yet");
-    std::process::exit(2);
+use crate::codec::{build_pool, map_index, ObjectSpec};
+use crate::reference as rf;
+use crate::util::{fnv_u64s, run_sharded, Report, SplitMix, Stats, Tier};
+use crate::Ctx;
+use proptest::prelude::*;
+use raptorq::{Decoder, Encoder, EncodingPacket, SourceBlockDecoder};
+use serde_json::{json, Value};
+use std::collections::HashSet;
+
+#[derive(Debug, Clone)]
+pub struct Case {
+    spec: ObjectSpec,
+    /// raw indices into the packet pool (with repetition), mapped monotonically
+    hist: Vec<u16>,
+    /// append every not-yet-delivered source packet (shuffled) at the end
+    complete: bool,
+    /// packets travel through serialize/deserialize
+    wire: bool,
+    /// sparse threshold: 0 = default (250), 1 = always sparse, 2 = always dense
+    backend: u8,
 }
 
-pub fn replay(_sub: &str, _case: &Value) -> Result<(), String> {
-    Err("not implemented".into())
+fn spec_strategy(kmax: usize, zmax: usize) -> impl Strategy<Value = ObjectSpec> {
+    (
+        prop_oneof![Just(1usize), Just(2usize), Just(4usize), Just(8usize)],
+        any::<u64>(),
+        1usize..=zmax,
+        any::<u64>(),
+        any::<u64>(),
+        any::<u64>(),
+        0u64..5,
+        any::<u64>(),
+    )
+        .prop_map(move |(al, rt, z, rk, rn, rr, class, seed)| {
+            // T a multiple of Al in Al..=192, weighted to 1, Al and the 63/64/65 strides
+            let tmax = 192 / al;
+            let tu = match rt % 8 {
+                0 => 1,
+                1 => (64 / al).max(1),
+                2 => ((64 / al) + 1).min(tmax),
+                3 => ((64 / al).max(2)) - 1,
+                _ => 1 + ((rt >> 8) % tmax as u64) as usize,
+            }
+            .max(1);
+            let kt_max = kmax * z;
+            let kt = (z as u64 + rk % (kt_max - z + 1) as u64) as usize;
+            let n = 1 + (rn % tu.min(5) as u64) as usize;
+            let t = tu * al;
+            // F mod T uniform, forced != 0 in half the cases; F < T and F = 1 included
+            let r = match rr % 4 {
+                0 => t,
+                _ => 1 + ((rr >> 4) % t as u64) as usize,
+            };
+            ObjectSpec { al, tu, z, n, kt, r, class, seed }
+        })
+}
+
+fn strategy(kmax: usize, zmax: usize, hist_max: usize) -> impl Strategy<Value = Case> {
+    (
+        spec_strategy(kmax, zmax),
+        proptest::collection::vec(any::<u16>(), 0..hist_max),
+        any::<bool>(),
+        any::<bool>(),
+        0u8..3,
+    )
+        .prop_map(|(spec, hist, complete, wire, backend)| Case { spec, hist, complete, wire, backend })
+}
+
+fn threshold(backend: u8) -> Option<u32> {
+    match backend {
+        1 => Some(0),
+        2 => Some(u32::MAX),
+        _ => None,
+    }
+}
+
+fn check(c: &Case, st: &mut Stats) -> Result<(), String> {
+    let spec = &c.spec;
+    let (t, f) = (spec.t(), spec.f());
+    let data = spec.data();
+    let cfg = spec.cfg();
+    let enc = Encoder::new(&data, cfg);
+    let pool = build_pool(&enc, spec.seed, |k| (k as usize / 2 + 8).min(60));
+    let layout = rf::object_layout(&data, t, spec.z, spec.n, spec.al);
+    let mut dec = Decoder::new(cfg);
+    if let Some(th) = threshold(c.backend) {
+        dec.verif_set_sparse_threshold(th);
+    }
+    let mut block_decs: Vec<SourceBlockDecoder> = pool
+        .ks
+        .iter()
+        .enumerate()
+        .map(|(zi, &k)| {
+            let mut d = SourceBlockDecoder::new(zi as u8, &cfg, k as u64 * t as u64);
+            if let Some(th) = threshold(c.backend) {
+                d.verif_set_sparse_threshold(th);
+            }
+            d
+        })
+        .collect();
+    let z = pool.ks.len();
+    // the delivery sequence
+    let mut seq: Vec<usize> = c.hist.iter().map(|&r| map_index(r, pool.packets.len())).collect();
+    if c.complete {
+        let mut rng = SplitMix::new(spec.seed ^ 0xC0DE);
+        let delivered: HashSet<usize> = seq.iter().copied().collect();
+        let mut rest: Vec<usize> = pool.source_idx.iter().flatten().copied().filter(|i| !delivered.contains(i)).collect();
+        rng.shuffle(&mut rest);
+        seq.extend(rest);
+    }
+    let mut got: Vec<HashSet<u32>> = vec![HashSet::new(); z];
+    let mut src_got: Vec<u32> = vec![0; z];
+    let mut block_done: Vec<bool> = vec![false; z];
+    let mut solver_blocks = 0usize;
+    let mut dup = false;
+    let mut none_at_k = false;
+    let mut far = false;
+    let mut answered = false;
+    for (step, &pi) in seq.iter().enumerate() {
+        let pkt: EncodingPacket = if c.wire {
+            EncodingPacket::deserialize(&pool.packets[pi].serialize())
+        } else {
+            pool.packets[pi].clone()
+        };
+        let sbn = pkt.payload_id().source_block_number() as usize;
+        let esi = pkt.payload_id().encoding_symbol_id();
+        let k = pool.ks[sbn];
+        if !got[sbn].insert(esi) {
+            dup = true;
+        } else if esi < k {
+            src_got[sbn] += 1;
+        }
+        if esi > k + 5000 {
+            far = true;
+        }
+        // per-block decoder, same history
+        if !block_done[sbn] {
+            let want_block: Vec<u8> = layout[sbn].iter().flat_map(|_| std::iter::empty::<u8>()).collect::<Vec<u8>>();
+            let _ = want_block;
+            match block_decs[sbn].decode(std::iter::once(pkt.clone())) {
+                Some(bytes) => {
+                    // block bytes = zero-padded object slice of that block
+                    let start: usize = pool.ks[..sbn].iter().map(|&kk| kk as usize * t).sum();
+                    let mut want: Vec<u8> = data[start.min(f)..(start + k as usize * t).min(f)].to_vec();
+                    want.resize(k as usize * t, 0);
+                    if bytes != want {
+                        return Err(format!("block decoder {sbn} returned wrong bytes after step {step} (K={k}, {} distinct symbols, {} source)", got[sbn].len(), src_got[sbn]));
+                    }
+                    block_done[sbn] = true;
+                    if src_got[sbn] < k {
+                        solver_blocks += 1;
+                    }
+                }
+                None => {
+                    if src_got[sbn] == k {
+                        return Err(format!("block decoder {sbn} answered 'not yet' although all {k} source packets were delivered (step {step})"));
+                    }
+                    if got[sbn].len() as u32 >= k {
+                        none_at_k = true;
+                    }
+                }
+            }
+        }
+        let all_source = (0..z).all(|b| src_got[b] == pool.ks[b]);
+        match dec.decode(pkt) {
+            Some(out) => {
+                answered = true;
+                if out.len() != f {
+                    return Err(format!("decoder returned {} bytes, transfer length is {f} (step {step})", out.len()));
+                }
+                if out != data {
+                    let pos = out.iter().zip(&data).position(|(a, b)| a != b).unwrap_or(0);
+                    return Err(format!("decoder returned a wrong object (first difference at byte {pos}) at step {step}"));
+                }
+            }
+            None => {
+                if all_source {
+                    return Err(format!("all source packets of every block delivered, yet the decoder answers 'not yet' (step {step})"));
+                }
+                if answered {
+                    return Err(format!("decoder went back to 'not yet' after having answered (step {step})"));
+                }
+            }
+        }
+    }
+    let kprime_pad = pool.ks.iter().any(|&k| rf::params(k).kp > k);
+    st.class_if(kprime_pad, "padding symbols present (K<K')");
+    st.class_if(f % t != 0, "F mod T != 0");
+    st.class_if(spec.z > 1, "Z>1");
+    st.class_if(spec.n > 1, "N>1");
+    st.class_if(none_at_k, "None at >= K symbols");
+    st.class_if(dup, "duplicates present");
+    st.class_if(far, "far repair ESIs");
+    st.class_if(c.backend == 1 || pool.ks.iter().any(|&k| rf::params(k).kp >= 250 && c.backend == 0), "sparse back-end");
+    st.class_if(answered, "object returned");
+    st.class_if(c.wire, "through serialize/deserialize");
+    st.class_if(solver_blocks > 0, "a block completed through the solver");
+    st.class_if(f < t, "F<T");
+    st.evals(seq.len() as u64);
+    if solver_blocks > 0 {
+        st.nt(fnv_u64s(&[spec.seed, f as u64, t as u64, spec.z as u64, spec.n as u64, seq.len() as u64, crate::util::fnv64(&c.hist.iter().flat_map(|x| x.to_le_bytes()).collect::<Vec<u8>>())]));
+    }
+    st.sample(|| json!({"F": f, "T": t, "Z": spec.z, "N": spec.n, "Al": spec.al, "K_per_block": pool.ks, "pool": pool.packets.len(), "deliveries": seq.len(), "complete": c.complete, "solver_blocks": solver_blocks}));
+    Ok(())
+}
+
+fn to_json(c: &Case) -> Value {
+    json!({"spec": c.spec.to_json(), "hist": c.hist, "complete": c.complete, "wire": c.wire, "backend": c.backend})
+}
+
+fn from_json(v: &Value) -> Case {
+    Case {
+        spec: ObjectSpec::from_json(&v["spec"]),
+        hist: v["hist"].as_array().unwrap().iter().map(|x| x.as_u64().unwrap() as u16).collect(),
+        complete: v["complete"].as_bool().unwrap(),
+        wire: v["wire"].as_bool().unwrap(),
+        backend: v["backend"].as_u64().unwrap() as u8,
+    }
+}
+
+fn signature(_: &Case, msg: &str) -> String {
+    let kind = if msg.contains("panic") {
+        "panic"
+    } else if msg.contains("wrong object") || msg.contains("wrong bytes") {
+        "wrong-bytes"
+    } else if msg.contains("transfer length") {
+        "length"
+    } else if msg.contains("not yet") {
+        "no-answer"
+    } else {
+        "other"
+    };
+    format!("object:{kind}")
+}
+
+pub fn run(ctx: &Ctx, rep: &mut Report) {
+    rep.rule = "generated object (Al in {1,2,4,8}, T multiple of Al up to 192 weighted to 1/Al/63,64,65 strides, Z <= 6, N <= 5, K per block <= 64 (quick), F with F mod T uniform incl. F < T and F = 1, data in {random, zero, 0xFF, one-hot, position-coded}) and a delivery history: a generated list of indices (with repetition) into the pool of the encoder's source packets plus repair packets with near/uniform/far ESIs, in half the cases completed with every missing source packet; optional serialize/deserialize; decoder back-end default/sparse/dense. Thorough adds K around the dense/sparse switch (241..260), K in 1000..1100 and K >= 10000. Oracle: after every Decoder::decode call the answer is None or exactly the object (length F); Some once all source packets were delivered; never back to None; the same history through per-block decoders gives None or the zero-padded block. Non-trivial = at least one block completed through the solver (>= K distinct symbols with a source symbol missing); distinct by (object, history).".into();
+    let n = ctx.tier.pick(6_000u64, 150_000);
+    rep.absorb("small", run_sharded("C01", "small", ctx.seed, n, 32, || strategy(64, 6, 400), check, to_json, signature));
+    let n = ctx.tier.pick(300u64, 4_000);
+    rep.absorb("switch", run_sharded("C01", "switch", ctx.seed, n, 32, || strategy_range(241, 262, 2, 700), check, to_json, signature));
+    if ctx.tier == Tier::Thorough {
+        rep.absorb("k1000", run_sharded("C01", "k1000", ctx.seed, 300, 32, || strategy_range(1000, 1100, 1, 1600), check, to_json, signature));
+        rep.absorb("k10000", run_sharded("C01", "k10000", ctx.seed, 24, 8, || strategy_big(), check, to_json, signature));
+    }
+}
+
+/// K per block within [klo, khi]
+fn strategy_range(klo: usize, khi: usize, zmax: usize, hist_max: usize) -> impl Strategy<Value = Case> {
+    (
+        klo..=khi,
+        1usize..=zmax,
+        prop_oneof![Just((1usize, 1usize)), Just((1, 3)), Just((4, 2)), Just((8, 1)), Just((1, 8))],
+        any::<u64>(),
+        any::<u64>(),
+        proptest::collection::vec(any::<u16>(), hist_max / 2..hist_max),
+        any::<bool>(),
+        0u8..3,
+    )
+        .prop_map(|(k, z, (al, tu), rr, seed, hist, complete, backend)| {
+            let t = al * tu;
+            let spec = ObjectSpec { al, tu, z, n: 1 + (rr % tu.min(3) as u64) as usize, kt: k * z - (rr % z as u64) as usize, r: 1 + ((rr >> 8) % t as u64) as usize, class: rr % 5, seed };
+            Case { spec, hist, complete, wire: false, backend }
+        })
+}
+
+fn strategy_big() -> impl Strategy<Value = Case> {
+    (10_000usize..=14_000, prop_oneof![Just(1usize), Just(4usize), Just(8usize)], any::<u64>(), proptest::collection::vec(any::<u16>(), 14_000..16_000), any::<bool>())
+        .prop_map(|(k, t, seed, hist, complete)| {
+            let spec = ObjectSpec { al: 1, tu: t, z: 1, n: 1, kt: k, r: 1 + (seed % t as u64) as usize, class: 0, seed };
+            Case { spec, hist, complete, wire: false, backend: 0 }
+        })
+}
+
+pub fn replay(_sub: &str, case: &Value) -> Result<(), String> {
+    check(&from_json(case), &mut Stats::new())
 }
